@@ -36,6 +36,8 @@ def run(ctx):
     r13_2(ctx, rep, roles, nl)
     r13_3(ctx, rep, roles, nl)
     r13_4(ctx, rep, roles)
+    from .. import identity
+    identity.check(ctx, rep, "C13", "R13.5", ["id-eq", "id-ord", "id-clone", "ns-clone"])
 
 
 def field_users(fx, adt, name):
